@@ -50,7 +50,34 @@ def enum_classes():
     class Unhashable(enum.Enum):
         L = [1]
         M = [2]
-    return [Plain, WithAlias, StrMixin, IntE, Snake, BoolVals, Unhashable]
+
+    # enums whose VALUES are members of other enums (plain, IntEnum, Flag): the exact-value representation of a member
+    # is then itself an enum member
+    class Weekday(enum.Enum):
+        SAT = 6
+        SUN = 7
+
+    class DayOff(enum.Enum):
+        FIRST = Weekday.SAT
+        SECOND = Weekday.SUN
+
+    class Level(enum.IntEnum):
+        LOW = 1
+        HIGH = 2
+
+    class OfLevels(enum.Enum):
+        A = Level.LOW
+        B = Level.HIGH
+        C = 3
+
+    class Bits(enum.Flag):
+        R = 1
+        W = 2
+
+    class OfFlags(enum.Enum):
+        RO = Bits.R
+        RW = Bits.R | Bits.W
+    return [Plain, WithAlias, StrMixin, IntE, Snake, BoolVals, Unhashable, DayOff, OfLevels, OfFlags]
 
 
 def flag_classes():
@@ -282,6 +309,59 @@ def run(rep, tier, seed):
                 rep.violation(f"shared-provider-map:{tp.__name__}", "property-violated",
                               {"what": f"one provider for two classes with map={{Color.RED: 'R', 'GREEN': 'G'}} / {{Access.READ: 'R'}}: "
                                        f"dump({member!r}) = {got!r}, expected {want!r} (a member key renames that member only)"})
+    # ---- one provider instance serving, in ONE retort, several classes whose members compare equal across classes
+    # (data mixins: IntEnum / str+Enum / IntFlag members compare and hash by their value)
+    class Prio(_enum.IntEnum):
+        LOW = 1
+        HIGH = 2
+
+    class Tint(_enum.IntEnum):
+        RED = 1
+        BLUE = 2
+
+    class SKind(str, _enum.Enum):
+        A = "a"
+        B = "b"
+
+    class SMode(str, _enum.Enum):
+        X = "a"
+        Y = "b"
+
+    class FRead(_enum.IntFlag):
+        READ = 1
+        WRITE = 2
+
+    class FShare(_enum.IntFlag):
+        LOOK = 1
+        EDIT = 2
+
+    groups = [
+        ("enum_by_name", lambda: enum_by_name(Prio, Tint), [Prio, Tint], lambda m: m.name),
+        ("enum_by_name(style)", lambda: enum_by_name(SKind, SMode, Prio, Tint, name_style=NameStyle.LOWER), [SKind, SMode, Prio, Tint],
+         lambda m: m.name.lower()),
+        ("enum_by_name(any)", lambda: enum_by_name(), [Tint, Prio, SMode, SKind], lambda m: m.name),
+        ("flag_by_member_names", lambda: flag_by_member_names(FRead, FShare), [FRead, FShare], lambda m: [m.name]),
+        ("enum_by_exact_value", lambda: enum_by_exact_value(), [Prio, Tint, SKind, SMode], lambda m: m.value),
+        ("enum_by_value", lambda: enum_by_value(Prio, tp=int), [Prio], lambda m: m.value),
+    ]
+    for sc, mode in cfgs:
+        for label, mk, classes, want_rep in groups:
+            for order in (classes, classes[::-1]):
+                rt = Retort(strict_coercion=sc, debug_trail=getattr(DebugTrail, mode), recipe=[mk()])
+                for cls in order:
+                    for m in cls:
+                        n += 1
+                        try:
+                            d = rt.dump(m, cls)
+                            back = rt.load(d, cls)
+                        except Exception as e:  # noqa: BLE001
+                            d, back = f"raises {type(e).__name__}", None
+                        if not (safe_eq(d, want_rep(m)) and back is m):
+                            rep.violation(f"shared-provider-retort:{label}", "property-violated",
+                                          {"what": f"one {label} provider serving {[c.__name__ for c in order]} (in this order of first "
+                                                   f"use) in one retort: dump({m!r}) = {d!r} (expected {want_rep(m)!r}), loaded back as "
+                                                   f"{back!r}", "strict_coercion": sc, "mode": mode})
+                            break
     nm = model_part(rep, tier)
     rep.cov.update({
         "evaluations": n + nm,
